@@ -152,9 +152,10 @@ def run(ctx):
             from commonroad.geometry.shape import Rectangle as _Rc
             from commonroad.scenario.lanelet import LaneletNetwork as _LN
             if net.lanelets:
-                la_ = rng.choice(net.lanelets)
-                c_ = la_.center_vertices[len(la_.center_vertices) // 2]
-                _LN.create_from_lanelet_network(net, _Rc(rng.choice([2.0, 8.0]), 2.0, np.array([float(c_[0]), float(c_[1])]), 0.0))
+                for la_ in net.lanelets[:5]:   # a cut-out around each of the first lanelets (each drops other lanelets)
+                    c_ = la_.center_vertices[len(la_.center_vertices) // 2]
+                    _LN.create_from_lanelet_network(net, _Rc(rng.choice([2.0, 8.0]), 2.0, np.array(
+                        [float(c_[0]), float(c_[1])]), 0.0))
                 _LN.create_from_lanelet_network(net, None, {rng.choice(list(_LT))})
                 _LN.create_from_lanelet_network(net)
                 _LN.create_from_lanelet_list(net.lanelets[:2])
@@ -315,7 +316,7 @@ def run(ctx):
             time_step=0, position=np.array([1.0, -3.0]), orientation=0.0, velocity=4.0),
             TrajectoryPrediction(Trajectory(1, states), shape)))
 
-    def drive(sc, pps, rng, tag, nops):
+    def drive(sc, pps, rng, tag, nops, first=()):
         base_snap = snapshot(sc, pps)
         base_exp = exports(sc, pps)
         try:
@@ -323,8 +324,10 @@ def run(ctx):
         except Exception:  # noqa  (e.g. a network whose index was never built: not judged)
             base_ans = None
         seq = []
-        for _ in range(nops):
-            op = rng.choice(OPS)
+        for k_ in range(nops):
+            # the first operations of a sequence are fixed by the case index (every operation meets every kind of
+            # scenario in every run), the rest is drawn at random
+            op = first[k_] if k_ < len(first) else rng.choice(OPS)
             seq.append(op)
             try:
                 do(op, sc, pps, rng)
@@ -393,7 +396,8 @@ def run(ctx):
         pps = PlanningProblemSet(plist)
         if any(la.traffic_lights and la.successor for la in sc.lanelet_network.lanelets):
             ctx.feature("light-with-successors")
-        seq = drive(sc, pps, rng, "generated-%d" % i, rng.randint(6, 14))
+        seq = drive(sc, pps, rng, "generated-%d" % i, rng.randint(6, 14),
+                    first=[OPS[(i * 4 + j_) % len(OPS)] for j_ in range(4)])
         ctx.fingerprint(["gen", i, seq])
         if i < 2:
             ctx.sample({"source": "generated", "operations": seq})
@@ -408,5 +412,6 @@ def run(ctx):
         ctx.feature("fixture")
         if any(pp.goal.lanelets_of_goal_position is not None for pp in pps.planning_problem_dict.values()):
             ctx.feature("goal-lanelets.defaultdict")
-        seq = drive(sc, pps, rng, os.path.basename(files[j]), 8)
+        seq = drive(sc, pps, rng, os.path.basename(files[j]), 8,
+                    first=["export_xml", "cutout_copy", "draw", OPS[(j * 3) % len(OPS)], OPS[(j * 3 + 1) % len(OPS)]])
         ctx.fingerprint(["fix", j, seq])
